@@ -839,7 +839,11 @@ class Compound(Event, abc.ABC, list[T], typing.Generic[T]):
                 "longer than the actual event."
             )
             self.tempo.cut_out(0, d)
-        elif d > d_env:
+        elif d > d_env or (self.tempo and self.tempo[-1].duration > 0):
+            # Also if the envelope ends exactly at 'd', but without
+            # a control point there (its last point has a duration):
+            # without a point at the seam the last segment would be
+            # interpolated towards the first value of the others tempo.
             self.tempo.extend_until(d)
         self.tempo.extend(other.tempo.copy())
 
